@@ -146,7 +146,8 @@ def decide_and_report(mod, tier, seed, agg, dead_shards, t0, replay_path=None):
             "coverage": cov, "assumptions": getattr(mod, "ASSUMPTIONS", []),
             "wall_s": round(time.time() - t0, 2), "violations": sum(c for _, c, _, _ in unlisted),
         }
-        evidence.write(prop, doc)
+        if not os.environ.get("VERIF_NO_EVIDENCE"):  # mutation audit aims the checks at a scratch copy; never evidence
+            evidence.write(prop, doc)
     for ln in lines:
         print(ln)
     print(f"{prop} tier={tier} seed={seed} evaluations={agg['evaluations']} distinct_nontrivial={n_non} "
